@@ -1,10 +1,8 @@
 SPECIFICATION Spec
 CONSTANTS
   V = 2
-  ChainId = "tsRotateBack"
-  ShipMode = "newest"
-  Cons = FALSE
-  MaxCycles = 2
+  Cons = TRUE
+  MaxCycles = 1
   MaxRootUpdates = 4
   Times = {0}
   ClockMoves = FALSE
@@ -18,6 +16,7 @@ CONSTANTS
   CandSn <- MC_CandSn
   CandTg <- MC_CandTg
   Limit <- MC_Limit
-  Chain0 <- TheChain
-INVARIANTS Emit
+  Chain0 <- NoChain
+VIEW view
+INVARIANTS PinsMatch ConsistentNames TrustedVerified SizesBounded RequestsBounded
 CHECK_DEADLOCK FALSE
